@@ -70,6 +70,43 @@ def r1(c, ops):
         raise AnchorError("make_pre: bucket dict literal {Op.X: [] ...} not found")
     c.check("C03.R1", buckets == names, repo.loc(pm, mp), "make_pre/buckets", f"buckets {sorted(buckets)} != Op members {sorted(names)}: an op without a bucket raises KeyError, "
             "a missing member silently loses entries", key_text="buckets")
+    # every entry keeps its sub-tree: the "children" of each item filed in a bucket is the recursion over that entry's children on every path (an item filed with an
+    # empty mapping instead — for one op, one depth — makes the rows under it vanish from the rendered `annet diff`, which no longer reads back to the same entries)
+    pvp = Provenance(mp)
+    items = [d for d in ast.walk(mp) if isinstance(d, ast.Dict) and any(isinstance(k, ast.Constant) and k.value == "children" for k in d.keys)
+             and any(isinstance(k, ast.Constant) and k.value == "row" for k in d.keys)]
+    for d in items:
+        val = [v for k, v in zip(d.keys, d.values) if isinstance(k, ast.Constant) and k.value == "children"][0]
+        gmp = GuardMap(mp)
+        rec_args = {x.id for call in calls_in(mp) if call_name(call).split(".")[-1] == mp.name for a in list(call.args[:1]) + [k.value for k in call.keywords if k.arg == "diff"]
+                    for x in ast.walk(a) if isinstance(x, ast.Name)}
+        exprs, todo = [], [(val, "")]
+        while todo:
+            e, why = todo.pop()
+            if isinstance(e, ast.IfExp):
+                todo += [(e.body, why + " " + norm(e.test)), (e.orelse, why + " " + norm(e.test))]
+            elif isinstance(e, ast.BoolOp):
+                todo += [(v, why + " " + norm(e.values[0])) for v in e.values]
+            elif isinstance(e, ast.Name) and len(exprs) < 16:
+                vs = [(d_.value, why + " " + G.show(gmp.formula(d_.stmt))) for d_ in pvp.rd.defs(e) if d_.kind in ("assign", "walrus") and d_.value is not None]
+                todo += vs
+                if not vs:
+                    exprs.append((e, why))
+            else:
+                exprs.append((e, why))
+
+        def empty_map(ew):
+            e, why = ew
+            import re as _re
+            # an empty mapping chosen BECAUSE the entry has no children is the same value as the recursion over nothing
+            if any(_re.search(r"(?<![\w.])" + _re.escape(n_) + r"(?!\w)", why) for n_ in rec_args):
+                return False
+            return (isinstance(e, ast.Dict) and not e.keys) or (isinstance(e, ast.Constant) and e.value is None) or \
+                (isinstance(e, ast.Call) and not e.args and not e.keywords and call_name(e).split(".")[-1] in ("odict", "dict", "OrderedDict"))
+        bad = [ew[0] for ew in exprs if empty_map(ew)]
+        c.check("C03.R1", not bad, repo.loc(pm, bad[0] if bad else d), "make_pre/children-always-recursed",
+                f"the children of a filed item may be `{norm(bad[0])[:60] if bad else '?'}` instead of make_pre(<the entry's children>): on that path the rows under the entry are lost from "
+                "the displayed diff (and from what the patch logic sees)", key_text="children-not-recursed")
     # sign_map
     tm = repo.module(TAB)
     dl = repo.func(TAB, "CommonFormatter._diff_lines")
